@@ -292,15 +292,19 @@ def oracle_cagrad(chk, c, dt, found):
         if all(x == 0 for x in o[1]):
             s = A.sigma_max(J)
             ne = F(p["norm_eps"])
-            if s >= ne * (1 + F(1, 1000)) and cc > 0:
+            # the zero vector is allowed exactly "at stationarity", which the code decides to the
+            # user's tolerance: |g_w| < norm_eps * |J| for the solver's convex combination g_w, hence
+            # min-norm(hull) < norm_eps * |J|.  This holds for c = 0 as for c > 0 (the statement's
+            # parenthesis qualifies CAGrad(c) for every c); what is NOT allowed is zero while the
+            # hull's min-norm point is clearly above the tolerance
+            if s >= ne * (1 + F(1, 1000)) and (cc > 0 or n0 > tol):
                 mn2 = minnorm_exact(A.gram(J)) / (s * s)
                 if mn2 > ne * ne * F(11, 10):
-                    bad = ("CAGrad returned the zero vector although the hull is not stationary "
+                    bad = (("CAGrad(c=0) returned zero instead of the mean row " if cc == 0 else
+                            "CAGrad returned the zero vector ") + "although the hull is not stationary "
                            f"(min-norm^2/s^2 = {float(mn2):.3e} > norm_eps^2)")
-                elif cc == 0 and n0 > tol:
-                    bad = "CAGrad(c=0) returned zero instead of the mean row"
-            elif cc == 0 and n0 > tol and s >= ne * (1 + F(1, 1000)):
-                bad = "CAGrad(c=0) returned zero instead of the mean row"
+                else:
+                    chk.note("cagrad_zero_at_norm_eps_stationarity" + ("_c0" if cc == 0 else ""))
         elif abs(d - cc * n0) > tol:
             # at (numerical) stationarity g_w ~ 0 and A = g0 + c|g0| g_w/|g_w| is dominated by the
             # conic solver's residual: the property allows the zero vector there, and nothing
@@ -335,7 +339,16 @@ def run(chk):
             c["params"] = {"epsilon": rng.choice([F(1, 1000), F(0)]),
                            "max_iters": rng.choice([1, 2, 3, 5, 8, 100])}
         cases.append(c)
-    corr = [c for c in cases if not (c["name"] == "MGDA" and c["params"]["max_iters"] > 8)]
+    corr = []
+    for c in cases:
+        if c["name"] == "MGDA" and c["params"]["max_iters"] > 8:
+            continue
+        # J and the parameters were replaced after gen_case's own filter: re-apply the tie-free
+        # quantifier of the MGDA correspondence (exact argmin ties are broken differently in float32)
+        if c["name"] == "MGDA" and not R.well_conditioned(c["J"], "MGDA", c["params"]):
+            chk.note("corr_skipped_mgda_tie")
+            continue
+        corr.append(c)
     kept, dis = R.run_corr(chk, corr, "c18")
     for c in cases:
         chk.count(R.case_json(c), nontrivial=len(c["J"]) > 1 and c["cat"] != "zero")
